@@ -188,7 +188,7 @@ def gen_history(rng, ndates, nver, p_row, ordered=True, sort_index=True):
 
 def gen_cases(rng, tier):
     cases = []
-    n = 260 if tier == 'quick' else 5000
+    n = 400 if tier == 'quick' else 5000
     for i in range(n):
         r = rng.random()
         if r < 0.45:      # the design's scope: 6 dates, 1-6 versions
